@@ -15,6 +15,9 @@ SCR=/var/tmp/zv-seed-work
 mkdir -p "$COPY" "$SCR/evidence" "$SCR/replays"
 (cd /repo && git archive HEAD | tar -x -C "$COPY") || exit 2
 (cd "$COPY" && git apply "$PATCH") || { echo "patch does not apply"; rm -rf "$COPY"; exit 2; }
+# git archive stamps every file with the commit time; cargo decides by mtime, so without this a build left over from the
+# previous seed would be reused for this one
+find "$COPY" -type f -exec touch {} +
 for C in $CHECKS; do
   OUT=$(VERIF_WORK=$SCR/work VERIF_EVIDENCE=$SCR/evidence VERIF_REPLAYS=$SCR/replays unshare --mount sh -c \
       "mount --bind $COPY /repo && cd $ROOT && ./check $C --tier ${TIER:-quick}" 2>&1)
